@@ -99,6 +99,8 @@ def get(ctx, fam):
         return build_family(ctx, fam, name_programs(ctx))
     if fam == "shadow":
         return build_family(ctx, fam, shadow_programs(ctx))
+    if fam == "wide":
+        return build_family(ctx, fam, wide_programs(ctx))
     if fam == "generic":
         return build_family(ctx, fam, generic_programs(ctx))
     if fam == "attrs":
@@ -328,6 +330,22 @@ def shadow_programs(ctx):
     for k, nm in enumerate(SHADOW_NAMES):
         out.setdefault(f"sh{k % 8:02d}", []).append(shadow_program(nm, k))
     return out
+
+
+def wide_programs(ctx):
+    """Programs whose exec / query / sudo handlers take 128-bit primitives (JSON numbers beyond the 64-bit range)."""
+    from . import types as T
+    out = []
+    for i in range(ctx.pick(3, 10)):
+        rng = ctx.rng("wide", i)
+        p = spec.gen_program(rng, f"wide{i:02d}", n_ifaces=rng.choice([0, 1, 2]))
+        k = 0
+        for h in spec.handlers(p):
+            if h["kind"] in ("exec", "query", "sudo") and h["args"] and not h["args"][0]["name"].startswith("p1"):
+                h["args"][0]["ti"] = spec.intern_type(p, [T.U128, T.I128, T.option(T.U128), T.vec(T.I128)][k % 4])
+                k += 1
+        out.append(p)
+    return {"wd00": out}
 
 
 def name_programs(ctx):
